@@ -25,6 +25,14 @@ def gen_cases(tier, seed):
     for i in range(8000 if q else 80000):
         prof = "normal" if i % 20 else ("many" if i % 40 else "big")
         yield "tx", {"seed": rng.getrandbits(48), "profile": prof, "segwit": [True, False, True][i % 3]}
+    # witness stacks with 252 / 253 / 255 / 256 / 300 items (the item COUNT is a CompactSize as well)
+    for i, cnt in enumerate([252, 253, 254, 255, 256, 300] * (1 if q else 5)):
+        yield "tx_bigstack", {"seed": rng.getrandbits(48), "count": cnt}
+    for i in range(60 if q else 900):
+        yield "cli_decode", {"seed": rng.getrandbits(48), "fmt": ["raw", "hex", "bin"][i % 3], "segwit": i % 2 == 0,
+                             "vlow": [0x00, 0x0A, 0x20, 0x30, 0x78, 0x0D, 0x01][i % 7], "lhigh": [0x0A, 0x0D, 0x20, 0x00, 0x30, 0x01][i % 6]}
+    for i in range(40 if q else 600):
+        yield "cli_build", {"seed": rng.getrandbits(48), "segwit": i % 2 == 0}
     step = 4096
     for lo in range(0, 2 ** 16 + 3, step):
         yield "cs_range", {"lo": lo, "hi": min(2 ** 16 + 3, lo + step)}
@@ -43,7 +51,7 @@ def gen_cases(tier, seed):
 
 def required(tier):
     return {"tx.ser_compared": 2000, "tx.parsed": 2000, "tx.class.item>=253": 100, "tx.class.empty-stack": 100,
-            "tx.class.count>=253": 20, "tx.class.script>=253": 200, "tx.class.big": 10, "cs.range": 65000, "cs.vals": 300,
+            "tx.class.count>=253": 20, "tx.class.script>=253": 200, "tx.class.big": 10, "tx.class.stack>=252_items": 6, "cli.decoded": 50, "cli.built": 30, "cs.range": 65000, "cs.vals": 300,
             "cs.oob": 5, "contract:compact_size_uint.canonical": 60000}
 
 
@@ -54,6 +62,74 @@ def exhaustive(tier, counts):
 def run_case(kind, params, ctx):
     import bits
     import bits.tx as btx
+    if kind == "cli_decode":
+        from . import clihelp
+        rng = rng_for("C05cli", params["seed"])
+        t = txgen.gen_tx(rng, "normal", params["segwit"])
+        t["version"] = (rng.getrandbits(24) << 8) | params["vlow"]
+        t["locktime"] = (params["lhigh"] << 24) | rng.getrandbits(24)
+        raw = txref.ser_tx(t)
+        r = clihelp.run(["tx", "--decode", clihelp.fmt_flag(params["fmt"])], clihelp.rep(raw, params["fmt"]))
+        d = clihelp.json_out(r["out"])
+        ctx.count("cli.decoded")
+        ctx.nontrivial()
+        if not r["ok"] or d is None:
+            ctx.violation(f"cli/tx-decode-fails/fmt:{params['fmt']}", f"bits tx --decode ({params['fmt']} input, version {t['version']:#x}, locktime {t['locktime']:#x}): ret={r['ret']!r} out={r['out'][:80]!r}")
+            return
+        try:
+            got = txgen.lib_fields(d)
+        except Exception as e:
+            ctx.violation("cli/tx-decode-shape", f"{type(e).__name__}: {e}")
+            return
+        if got != t:
+            ctx.violation(f"cli/tx-decode-fields-wrong/fmt:{params['fmt']}/{_diff_field(got, t)}", f"bits tx --decode differs in {_diff_field(got, t)} (version {t['version']:#x}, locktime {t['locktime']:#x})")
+        return
+    if kind == "cli_build":
+        from . import clihelp
+        import json as _json
+        rng = rng_for("C05clib", params["seed"])
+        t = txgen.gen_tx(rng, "normal", params["segwit"])
+        for i in t["vin"]:
+            i["sequence"] = 0xFFFFFFFF        # the command line cannot set sequences
+        argv = ["tx"]
+        for i in t["vin"]:
+            argv += ["-txin", _json.dumps({"txid": bytes.fromhex(i["txid"])[::-1].hex(), "vout": i["vout"], "scriptsig": i["script"]})]
+        for o in t["vout"]:
+            argv += ["-txout", _json.dumps({"satoshis": o["value"], "scriptpubkey": o["script"]})]
+        argv += ["-v", str(t["version"]), "-l", str(t["locktime"])]
+        if t.get("witness") is not None:
+            for st in t["witness"]:
+                argv += ["--script-witness", txref.ser_witness_stack(st).hex()]
+        r = clihelp.run(argv, b"")
+        ctx.count("cli.built")
+        ctx.nontrivial()
+        exp = txref.ser_tx(t).hex()
+        if r["exit"] or r["ret"] != exp:
+            ctx.violation(f"cli/tx-build-wrong/{_ser_class(t)}", f"bits tx -txin.. -txout.. returned {str(r['ret'])[:80]!r}, expected {exp[:80]}")
+        return
+    if kind == "tx_bigstack":
+        rng = rng_for("C05big", params["seed"])
+        t = txgen.gen_tx(rng, "normal", True)
+        t["witness"][0] = [rand_bytes(rng, rng.choice([0, 1, 1, 2])).hex() for _ in range(params["count"])]
+        raw_ref = txref.ser_tx(t)
+        ctx.count("tx.class.stack>=252_items")
+        ctx.nontrivial()
+        try:
+            raw_lib = bytes(txgen.lib_serialise(t))
+            if raw_lib != raw_ref:
+                ctx.violation("serialise-wrong/segwit+stack-count>=253" if params["count"] >= 253 else "serialise-wrong/segwit+stack-count=252", f"witness stack of {params['count']} items: differs at byte {_first_diff(raw_lib, raw_ref)}")
+        except ContractViolation:
+            raise
+        except Exception as e:
+            ctx.violation(f"serialise-raises/segwit+stack-count{'>=253' if params['count'] >= 253 else '=252'}", f"witness stack of {params['count']} items: {type(e).__name__}: {e}")
+        deser = getattr(btx.tx_deser, "__wrapped__", btx.tx_deser)
+        try:
+            d, rest = deser(raw_ref + b"\x07")
+            if txgen.lib_fields(d) != t or bytes(rest) != b"\x07":
+                ctx.violation("parse-fields-wrong/segwit+stack-count>=252", f"witness stack of {params['count']} items mis-parsed")
+        except Exception as e:
+            ctx.violation("parse-raises/segwit+stack-count>=252", f"{type(e).__name__}: {e}")
+        return
     if kind in ("tx", "corpus"):
         if kind == "corpus":
             raw_ref = bytes.fromhex(txgen.FIXED_CORPUS[params["name"]])
